@@ -95,6 +95,13 @@ claim("C02",
       "change. Numerical read-back equalities are not decided.",
       COMMON_NOTE, "dimension/role typing (abstract interpretation) + sibling agreement + all-paths counting", "DESIGN.md section 3 C02")
 
+claim("C20",
+      "Static analysis (partial, exact): every weighted mean of the block-collection classes typed with a role generator for the weights (result of degree 0 in the weights and with the "
+      "unit of the averaged quantity, for all values); identical weights in the sibling density averages; aggregation loops over candidate blocks only; exactly one unconditional "
+      "append per block to the group keyed by its micro suffix; environment-group skip condition and injective encoding (polynomial normal form); label codec field width over the folded "
+      "alphabet (non-bijective for lowercase labels: recorded known finding); representative-block builders mutate only fresh copies. Numerical convexity and the median choice are not decided.",
+      COMMON_NOTE, "role typing (abstract interpretation) + sibling agreement + all-paths counting + constant folding", "DESIGN.md section 3 C20")
+
 NA_REASON = {}
 
 
